@@ -6,8 +6,12 @@ backward state, which penalty family), every candidate updates the maximum with 
 compared, and the handler of code k sets the boundary states of the two sub-problems to exactly
 the states code k stands for (R07a); the three kernels are wired alike and do_align sets up each
 (a,b) shape so that exactly one kernel matches, mirroring the path on exactly the swapped
-branches (R07b).
-Not decided: recurrence weights, boundary handling, tie-breaks, float arithmetic - i.e. optimality.
+branches (R07b); profile gap columns are weighted by the size of the other group (R07c); the border
+tests of the three kernels agree and have the right polarity (R07d); the three forward passes, the
+three backward passes (R07e) and the three meetup functions (R07f) leave the same max-plus normal
+form in every DP cell / carried local / candidate - one recurrence, three implementations.
+Not decided: that the common recurrence is the optimal one, row/column offsets of profile reads,
+tie-breaks, float arithmetic - i.e. optimality.
 """
 import re
 
@@ -22,7 +26,7 @@ STATES = ("a", "ga", "gb")
 def describe(ck):
     ck.rule("R07a", "transition codes: producers (three meetup functions) agree with each other and with the consumer (aln_continue): same code set, same (forward state, backward state) meaning, compared expression = stored maximum, boundary states of both sub-problems match the code")
     ck.rule("R07b", "do_align sets seq1/seq2/prof1/prof2 to one of the three kernel shapes before every aln_runner call and mirrors the path on exactly the branches that swapped a and b")
-    ck.not_decided += ["recurrence weights, terminal-gap handling, tie-breaks, floating-point arithmetic: the optimality statement itself"]
+    ck.not_decided += ["that the recurrence common to the three kernels is the optimal one (the comparison is relative), profile row/column offsets, tie-breaks, floating-point arithmetic: the optimality statement itself"]
 
 
 def _norm(t):
